@@ -89,6 +89,20 @@ OutOfSegment == IF ~seg.open /\ Len(C.rules) > 0
 (* "add" must not be treated as a learning event even when it opens a segment: its own changes are judged by StoringChangesNothing *)
 
 
+(* copy relations on content digests: E.same lists the groups of watched components with bit-identical content *)
+SameContent(a, b) == \E i \in 1..Len(E.same) : a \in SetOf(E.same[i]) /\ b \in SetOf(E.same[i])
+(* a hard update makes the target equal to its online network (judged at the first event after the copy) *)
+HardCopyClauses ==
+  IF \E i \in 1..Len(C.hard_pairs) : C.hard_pairs[i][1] \in Changed /\ ~SameContent(C.hard_pairs[i][1], C.hard_pairs[i][2])
+  THEN {"HardCopyIsCopy"} ELSE {}
+(* components that are documented to be copied together (TD7's checkpoint = fixed embedding + actor):
+   when one member of the group is copied, every member equals its source *)
+CopyGroupClauses ==
+  IF \E g \in 1..Len(C.copy_groups) :
+       /\ \E i \in 1..Len(C.copy_groups[g]) : C.copy_groups[g][i][1] \in Changed
+       /\ \E i \in 1..Len(C.copy_groups[g]) : ~SameContent(C.copy_groups[g][i][1], C.copy_groups[g][i][2])
+  THEN {"CopyGroupIncomplete"} ELSE {}
+
 (* clauses that apply to every event: frame conditions on component versions *)
 Common ==
   (IF Changed \cap SetOf(C.frozen) # {} THEN {"FrozenComponentChanged"} ELSE {})
@@ -96,7 +110,7 @@ Common ==
         THEN {"NoLearnBeforeWarmup"} ELSE {})
   \cup (IF Changed # {} /\ E.ev = "add" THEN {"StoringChangesNothing"} ELSE {})
   \cup (IF Changed # {} /\ E.ev = "step" /\ prevEv \in {"explore", "policy"} THEN {"ActingChangesNothing"} ELSE {})
-  \cup SegClose \cup OutOfSegment
+  \cup SegClose \cup OutOfSegment \cup HardCopyClauses \cup CopyGroupClauses
 
 Bump == /\ l' = l + 1 /\ prevEv' = E.ev /\ UNCHANGED tid
         /\ updates' = IF Changed \cap SetOf(C.trained) # {} THEN updates + 1 ELSE updates
